@@ -12,3 +12,6 @@ type User struct {
 }
 
 type ID int64
+
+// Payload: a named method-less interface type.
+type Payload interface{}
